@@ -316,7 +316,7 @@ impl Prop for SlotsProp {
         vec!["fresh_after_other_slots", "name_of_fresh_form_parsed", "egraph_internal_slots_checked", "match_with_pattern_slot_spelled_like_an_internal_slot"]
     }
     fn rule(&self) -> String {
-        format!("Every sequence (length <=4 quick, <=5 thorough) over the operations fresh, numeric(n) for n in {{0,1,2,2^30-1}}, named(s) for s in {:?}, parse(print(last slot)) and 'insert (f last prev) into a fresh e-graph' and 'match (b (var S) ?y) / ?o == (b ?l ?r), ?l == (var S) against (b (var last) (var prev)) with S spelled like each of the class's own slots' is executed in a fresh thread against a reference model (set of slots seen, map name->slot): fresh must be new and print as $f<k>; a name always denotes the same slot; two different names never denote the same slot; print->named and print->parse->print round-trip; class parameter slots invented by the e-graph are new. Non-trivial = sequence that constructs at least two slots.", NAMES)
+        format!("Every sequence (length <=4 quick, <=5 thorough) over the operations fresh, numeric(n) for n in {{0,1,2,2^30-1}}, named(s) for s in {:?}, parse(print(last slot)) and 'insert (f last prev) into a fresh e-graph' and 'match (b (var S) ?y) / ?o == (b ?l ?r), ?l == (var S) against (b (var last) (var prev)) with S spelled like each of the class's own slots' is executed in a fresh thread against a reference model (set of slots seen, map name->slot): fresh must be new and print as $f<k>; a name always denotes the same slot; two different names never denote the same slot; print->named and print->parse->print round-trip; class parameter slots invented by the e-graph are new; every e-node that enodes_applied returns for a class (also a binder class) invoked with the user's slots has exactly the invocation's slots and looks up to it. Non-trivial = sequence that constructs at least two slots.", NAMES)
     }
     fn assumptions(&self) -> Vec<String> {
         vec!["numerals at and beyond the encoding boundary (2^30) are driven since the fifth seed round (D18)".into(), "the empty name cannot be written in the term syntax; it is only exercised through Slot::named".into()]
